@@ -14,6 +14,7 @@ import (
 
 	"github.com/talostrading/sonic"
 	"github.com/talostrading/sonic/sonicerrors"
+	"github.com/talostrading/sonic/sonicopts"
 )
 
 func init() { Drivers["loop"] = runLoop }
@@ -46,6 +47,8 @@ func loopErrClass(err error) int {
 type loopObj struct {
 	kind   string
 	f      sonic.FileDescriptor // the sonic object (Conn or File)
+	l      sonic.Listener       // kind lsn
+	dials  []net.Conn           // kind lsn: connections the harness dialled
 	peer   net.Conn             // sock: harness side
 	peerFd int                  // piper: write end; pipew: read end
 	buf    []byte
@@ -64,6 +67,20 @@ type loopDrv struct {
 	fatal   string
 	started time.Time
 	budget  int // callbacks whose program may still run during the current script line
+}
+
+func (o *loopObj) sonicObj() any {
+	if o.kind == "lsn" {
+		return o.l
+	}
+	return o.f
+}
+
+func (o *loopObj) rawFd() int {
+	if o.kind == "lsn" {
+		return o.l.RawFd()
+	}
+	return o.f.RawFd()
 }
 
 func (d *loopDrv) cb(id int) func(error, int) {
@@ -142,6 +159,12 @@ func (d *loopDrv) newObj(id int, kind string) {
 			}
 			o.f, o.peerFd = f, r
 		}
+	case "lsn":
+		l, err := sonic.Listen(d.ioc, "tcp", "127.0.0.1:0", sonicopts.Nonblocking(true))
+		if err != nil {
+			panic(err)
+		}
+		o.l = l
 	case "reg":
 		o.path = filepath.Join(d.dir, fmt.Sprintf("reg%d", id))
 		if err := os.WriteFile(o.path, patternBytes(1, 64), 0o600); err != nil {
@@ -166,6 +189,18 @@ func (d *loopDrv) exec(a []string) {
 		id := atoi(a[4])
 		b := make([]byte, n)
 		d.events = append(d.events, fmt.Sprintf("S%d:%s:%s:%d", id, a[2], a[1], n))
+		if o.kind == "lsn" {
+			cb := d.cb(id)
+			o.l.AsyncAccept(func(err error, conn sonic.Conn) {
+				got := 0
+				if conn != nil {
+					got = 1
+					_ = conn.Close()
+				}
+				cb(err, got)
+			})
+			return
+		}
 		switch a[1] {
 		case "read":
 			o.f.AsyncRead(b, d.cb(id))
@@ -181,7 +216,12 @@ func (d *loopDrv) exec(a []string) {
 		d.objs[atoi(a[1])].f.Cancel()
 		d.events = append(d.events, "x"+a[1])
 	case "close":
-		err := d.objs[atoi(a[1])].f.Close()
+		var err error
+		if o := d.objs[atoi(a[1])]; o.kind == "lsn" {
+			err = o.l.Close()
+		} else {
+			err = o.f.Close()
+		}
 		d.events = append(d.events, fmt.Sprintf("C%s:%d", a[1], loopErrClass(err)))
 	case "sched":
 		t := d.timers[atoi(a[1])]
@@ -218,7 +258,7 @@ func (d *loopDrv) nameOf(slot uintptr, fd int) string {
 	}
 	sort.Ints(ids)
 	for _, id := range ids {
-		if sonic.VerifSlotAddr(d.objs[id].f) == slot {
+		if sonic.VerifSlotAddr(d.objs[id].sonicObj()) == slot {
 			return fmt.Sprintf("o%d", id)
 		}
 	}
@@ -242,6 +282,12 @@ func runLoop(c *Case) []string {
 		for _, o := range d.objs {
 			if o.f != nil {
 				_ = o.f.Close()
+			}
+			if o.l != nil {
+				_ = o.l.Close()
+			}
+			for _, c := range o.dials {
+				_ = c.Close()
 			}
 			if o.peer != nil {
 				_ = o.peer.Close()
@@ -274,7 +320,7 @@ func runLoop(c *Case) []string {
 		var sb strings.Builder
 		for _, id := range ids {
 			o := d.objs[id]
-			fmt.Fprintf(&sb, "o%d:%d:%d,", id, sonic.VerifSlotEvents(o.f)&5, b2i(d.ioc.VerifRegistered(o.f.RawFd())))
+			fmt.Fprintf(&sb, "o%d:%d:%d,", id, sonic.VerifSlotEvents(o.sonicObj())&5, b2i(d.ioc.VerifRegistered(o.rawFd())))
 		}
 		return fmt.Sprintf("%s%spending=%d disp=%d ev=%s tm=%d", e, extra, d.ioc.Pending(), d.ioc.Dispatched, strings.TrimSuffix(sb.String(), ","), d.ioc.VerifPendingTimers())
 	}
@@ -311,7 +357,21 @@ func runLoop(c *Case) []string {
 			switch a[1] {
 			case "data":
 				n := atoi(a[2])
-				if o.peer != nil {
+				if o.kind == "lsn" {
+					// n connections queued on the listener
+					for k := 0; k < n; k++ {
+						// the listener reports the address it was asked for (port 0): ask the socket
+						sa, err := syscall.Getsockname(o.l.RawFd())
+						if err != nil {
+							panic(err)
+						}
+						c, err := net.Dial("tcp", fmt.Sprintf("127.0.0.1:%d", sa.(*syscall.SockaddrInet4).Port))
+						if err != nil {
+							panic(err)
+						}
+						o.dials = append(o.dials, c)
+					}
+				} else if o.peer != nil {
 					_, _ = o.peer.Write(patternBytes(7, n))
 				} else {
 					_, _ = syscall.Write(o.peerFd, patternBytes(7, n))
